@@ -79,6 +79,34 @@ def main():
                              f"pseudo-inverse solution {want}", PRELUDE + G.SRC + SRC + f"M = np.array({M.tolist()!r}); b = np.array({b.tolist()!r})\n"
                              f"got = SVD(M).lstsq(b, rcond={rcond!r}, sing_val_cutoff={cutoff!r}); want = ref_lstsq(M, b, {1e-14 if rcond is None else rcond!r}, {cutoff!r})\n"
                              "print(got, want)\nassert np.allclose(got, want, rtol=1e-7, atol=1e-9 * max(1.0, np.max(np.abs(want))))\n", "SVD.lstsq")
+    rac.section("lstsq-reuse", "ONE SVD object asked several times with different (rcond, sing_val_cutoff) settings, in every order of three "
+                "settings: each answer equals the reference for ITS settings (nothing remembered from an earlier call)", "12 matrices x 6 orders")
+    settings = [(None, None), (None, 1), (1e-2, 2), (0.5, None), (1e-12, 1)]
+    for t_ in range(12):
+        m, n = int(rng.integers(2, 6)), int(rng.integers(2, 6))
+        M = rng.normal(size=(m, n)) * (10.0 ** rng.integers(-2, 3, size=(1, n)))
+        b = rng.normal(size=m)
+        for order in itertools.permutations(range(len(settings)), 3):
+            if rac.out_of_time(0.55):
+                break
+            svd = SVD(M)
+            bad = None
+            for si in order:
+                rcond, cutoff = settings[si]
+                got = svd.lstsq(b, rcond=rcond, sing_val_cutoff=cutoff)
+                want = ref_lstsq(M, b, 1e-14 if rcond is None else rcond, cutoff)
+                if got.shape != want.shape or not np.allclose(got, want, rtol=1e-7, atol=1e-9 * max(1.0, float(np.max(np.abs(want))))):
+                    bad = (si, got, want)
+                    break
+            rac.case((t_, order), sample=dict(shape=(m, n), order=[settings[i] for i in order]))
+            if bad:
+                rac.fail(f"lstsq-reuse {t_} {order}", f"C16 one SVD object, calls with settings {[settings[i] for i in order]}: call with {settings[bad[0]]} gives {bad[1]}, "
+                         f"the truncated pseudo-inverse solution for these settings is {bad[2]}",
+                         PRELUDE + G.SRC + SRC + f"M = np.array({M.tolist()!r}); b = np.array({b.tolist()!r})\nsvd = SVD(M)\n"
+                         f"for rcond, cutoff in {[settings[i] for i in order]!r}:\n    got = svd.lstsq(b, rcond=rcond, sing_val_cutoff=cutoff)\n"
+                         "    want = ref_lstsq(M, b, 1e-14 if rcond is None else rcond, cutoff)\n    print(got, want)\n"
+                         "    assert np.allclose(got, want, rtol=1e-7, atol=1e-9 * max(1.0, np.max(np.abs(want)))), (rcond, cutoff)\n", "SVD.lstsq")
+                break
     rac.section("one-step", "consistent linear problems with condition number <= 100, wide limits, unit and non-unit knob weights, "
                 "target weights: after ONE Jacobian step the knobs are at the solution (1e-5 relative: forward differences) and solve() "
                 "succeeds, with and without Broyden", "120 quick / 1500 thorough", exhaustive=False)
